@@ -79,6 +79,10 @@ def cases(tier, rng):
         for bad in ["", "X", "IIII", "VIII", "IVI", "Q7", "H", "#", "bb"]:
             yield Case("prog.to_chords", [[bad], k], "to_chords/unrecognised", kind=("tcbad",))
         yield Case("prog.to_chords", [["I", "IV", "V7", "bVII", "ii7", "#ivdim7"], k], "to_chords/list", kind=("tclist",))
+        # one unrecognised numeral among good ones, in every position: the documented empty answer, not a shorter list
+        for bad in ["IIII", "X", ""]:
+            for lst in ([bad, "I"], ["I", bad], ["I", bad, "V7"], ["ii", "V7", bad]):
+                yield Case("prog.to_chords", [lst, k], "to_chords/unrecognised-in-list", kind=("tcbad",))
     keys_for_suffix = ALL if tier != "quick" else ["C", "F#", "Eb", "a", "c#", "bb"]
     for k in keys_for_suffix:
         for i, n in enumerate(NUM):
@@ -146,7 +150,12 @@ def oracle(c, obs):
         if kind[0] == "tcbad":
             return None if obs == [] else "unrecognised numeral does not give the documented empty answer"
         if kind[0] == "tclist":
-            return None if isinstance(obs, list) and len(obs) == 6 else "progression list not mapped element-wise"
+            if not (isinstance(obs, list) and len(obs) == len(a[0])):
+                return "progression list not mapped element-wise"
+            for x, got in zip(a[0], obs):
+                if progressions.to_chords([x], a[1]) != [got]:
+                    return "progression list not mapped element-wise"
+            return None
         _, i, acc, sf = kind
         k = a[1]
         if sf in ("", "7"):
